@@ -109,6 +109,7 @@ func occSpec(name string, c ContainerKind, nkeys, nfill int, aboveThreshold bool
 		names[i] = e.String()
 	}
 	return &SeqSpec{Name: name, Events: names, New: func() SeqInst {
+		emptyKeyZero = false
 		lay := layoutFor(RelSD)
 		m := newContainer(c, lay)
 		for j := 0; j < nfill; j++ {
@@ -327,6 +328,12 @@ func bulkSpec(name string, kind int, hint int, seed uint64, n int, depth int, co
 	}
 	return &SeqSpec{Name: name, Events: names, MaxDepth: depth, New: func() SeqInst {
 		installDetHash(seed)
+		emptyKeyZero = false
+		if collide < 0 {
+			// the real hash functions with random table seeds; key 0 is the empty string
+			xsync.VerifSeed, xsync.VerifHashString, xsync.VerifHasher = nil, nil, nil
+			emptyKeyZero = true
+		}
 		if collide > 0 {
 			cf := func(k int) uint64 { return uint64(k%collide)<<7 | uint64(k%collide)<<50 | uint64(k/collide)%120 }
 			xsync.VerifHashString = func(s string, _ uint64) uint64 { return cf(keyIndex(s)) }
@@ -402,6 +409,9 @@ func genC11(tier string) []*Scenario {
 				out = append(out, &Scenario{Name: name, Prop: "C11", Seq: bulkSpec(name, kind, hint, seed, n, depth, 0), ExpectOutcomes: 2})
 			}
 		}
+		// the real hash functions (runtime memhash / typehash, random seeds): the oracle is layout independent
+		name0 := fmt.Sprintf("C11/resize-histories/%s/real-hash-functions", bulkKinds[kind])
+		out = append(out, &Scenario{Name: name0, Prop: "C11", Seq: bulkSpec(name0, kind, 0, 1, n, depth, -1), ExpectOutcomes: 2})
 		// fully / heavily colliding hash functions: everything lives in 1 or 4 bucket chains, resizes copy long chains
 		for _, collide := range []int{1, 4} {
 			name := fmt.Sprintf("C11/resize-histories/%s/colliding-into-%d-chains", bulkKinds[kind], collide)
